@@ -61,6 +61,9 @@ func Preset(prop string, adversarial bool, r *scen.Rand) *Params {
 		p.ManyCallsP = 0.3
 		p.MaxTests = 5
 		p.SubP = 0.5
+		p.MatcherP = 0.15
+		p.BadMatcherP = 0.6
+		p.InvalidP = 0.08
 		p.TasksP = 0.25
 		p.ReplayP = 0.8
 	case "C04":
@@ -71,6 +74,17 @@ func Preset(prop string, adversarial bool, r *scen.Rand) *Params {
 		p.EditValueP = 0.4
 		p.APIw = allAPIs(3, 2)
 		p.ReplayP = 1
+	case "C05":
+		p.Alpha = Alpha{Plain: 9, Framing: 1, Structured: 1}
+		p.Envs = allEnvs
+		p.UpdateOpt = 0.6
+		p.EditKinds = []string{"value", "removecall", "addcall", "removetest"}
+		p.EditValueP = 0.4
+		p.CleanP = 0.6
+		p.SortP = 0.4
+		p.PreFilesP = 0.3
+		p.APIw = allAPIs(3, 2)
+		p.ReplayP = 0.3
 	case "C06":
 		p.Alpha = Alpha{Plain: 9, Framing: 1, Structured: 1}
 		p.Envs = []map[string]string{envOff, envUpd, envUpd, envCI}
@@ -84,6 +98,7 @@ func Preset(prop string, adversarial bool, r *scen.Rand) *Params {
 		p.SharedFileP = 0.8
 		p.CfgP = 0.6
 		p.TasksP = 1
+		p.FaultP = 0.12
 		p.RaceP = 0.5
 		p.L0P = 0.1
 		p.ReplayP = 0.9
